@@ -11,8 +11,9 @@ from mpv import arr, cmdgen
 ANCHORS = ['mpilot/libraries/eems/fuzzy.py:FuzzyXOr.execute', 'mpilot/libraries/eems/fuzzy.py:FuzzySelectedUnion.execute', 'mpilot/libraries/eems/mixins.py:SameArrayShapeMixin.validate_array_shapes', 'mpilot/libraries/eems/basic.py:NormalizeCurveZScore.execute']   # repository functions the workload must enter (reported as anchors_reached / anchors_missed)
 LEVEL = "exploration"
 RULE = ("every built-in data command x shapes of rank 1-3 incl. length-1 axes x common cell permutation x reshape to another rank; "
+        "element-wise commands on rasters of 1-2.1 million cells compared window by window with the command run on the window alone; "
         "distinct by (command, n, source shape rank, target rank, has length-1 axis, dtypes, mask class)")
-REQUIRED_COUNTERS = ["shape_postconditions", "permutation_checks", "reshape_checks", "layout_checks", "model_reshape_checks"]
+REQUIRED_COUNTERS = ["shape_postconditions", "permutation_checks", "reshape_checks", "layout_checks", "model_reshape_checks", "large_rasters_checked", "window_checks"]
 ASSUMPTIONS = ["z-score commands compared with 1e-9 tolerance (float summation order), all others bit-exact on the dyadic lattice",
                "commands raising the same specific error on both sides are not judged"]
 
@@ -44,6 +45,10 @@ def cases(ctx):
         c["perm"] = perm
         c["reshape"] = list(rng.choice(factorisations(n, rng)))
         yield c
+    from mpv import big
+    for i in range(ctx.n(3, 30)):
+        yield {"kind": "big", "cmd": big.NAMES[(i * ctx.nshards + ctx.shard) % len(big.NAMES)], "shape": list(big.SHAPES[(i + ctx.shard) % len(big.SHAPES)]),
+               "rseed": rng.randrange(10 ** 9), "masked": i % 4 != 3}
     from mpv import models
     for i in range(ctx.n(200, 10000)):
         n = rng.choice([4, 6, 8, 12, 16, 24])
@@ -55,6 +60,46 @@ def cases(ctx):
         m = models.gen_model(rng, n_ops=rng.randint(2, 10), sinks=rng.random() < 0.5, libs="nc", table=models.gen_table(rng, shape=(n,)), cmds=safe)
         m["libs"] = "nc"
         yield {"kind": "model", "model": m, "shape_a": [n], "shape_b": list(rng.choice([f for f in fs if len(f) > 1]))}
+
+
+def run_big(ctx, case):
+    """A raster of more than a million cells: the result has its shape, and any window of its cells equals what the command
+    computes for that window alone (cells are computed independently, whatever the size of the array they sit in)."""
+    from mpv import big
+    cmd, shape = case["cmd"], tuple(case["shape"])
+    params = big.ELEMENTWISE[cmd]
+    fuzzy_in = cmd in arr.FUZZY_INPUT
+    inputs = big.gen_inputs(cmd, shape, case["rseed"], case["masked"])
+    ctx.feature(("big", cmd, len(shape), case["masked"]))
+    out, _ = arr.run_cmd(cmd, inputs, params, fuzzy_inputs=fuzzy_in)
+    if not out.ok:
+        ctx.fail("%s:raises-%s:large-raster" % (cmd, out.inner() or out.err), {"shape": list(shape), "error": repr(out.exc)[:300]})
+        return
+    res = out.value
+    ctx.count("shape_postconditions")
+    ctx.count("large_rasters_checked")
+    if not isinstance(res, numpy.ndarray) or tuple(res.shape) != shape:
+        ctx.fail("%s:shape:large-raster" % cmd, {"got": list(getattr(res, "shape", [])), "want": list(shape)})
+        return
+    n = int(numpy.prod(shape))
+    rm, rd = numpy.ma.getmaskarray(res).ravel(), numpy.ma.getdata(res).ravel()
+    for (a, b) in big.windows(n, case["rseed"]):
+        sub = [numpy.ma.array(numpy.ma.getdata(x).ravel()[a:b].copy(), mask=numpy.ma.getmaskarray(x).ravel()[a:b].copy()) for x in inputs]
+        so, _ = arr.run_cmd(cmd, sub, params, fuzzy_inputs=fuzzy_in)
+        ctx.count("window_checks")
+        if not so.ok:
+            ctx.fail("%s:window-raises-%s" % (cmd, so.inner() or so.err), {"window": [a, b]})
+            return
+        sm, sd = numpy.ma.getmaskarray(so.value), numpy.ma.getdata(so.value)
+        if (sm != rm[a:b]).any():
+            i = int(numpy.flatnonzero(sm != rm[a:b])[0])
+            ctx.fail("%s:cells-not-independent:large-raster:missing-cells-differ" % cmd, {"cell": a + i, "in_raster": bool(rm[a + i]), "alone": bool(sm[i]), "shape": list(shape)})
+            return
+        ok = (sd == rd[a:b]) | sm
+        if not ok.all():
+            i = int(numpy.flatnonzero(~ok)[0])
+            ctx.fail("%s:cells-not-independent:large-raster:value-differs" % cmd, {"cell": a + i, "in_raster": float(rd[a + i]), "alone": float(sd[i]), "shape": list(shape), "cells": n})
+            return
 
 
 def run_model(ctx, case):
@@ -116,6 +161,8 @@ def _same(cmd, a, b):
 def run_case(ctx, case):
     if case.get("kind") == "model":
         return run_model(ctx, case)
+    if case.get("kind") == "big":
+        return run_big(ctx, case)
     cmd, params = case["cmd"], case["params"]
     fuzzy_in = cmd in arr.FUZZY_INPUT
     base_specs = case["inputs"]
